@@ -289,7 +289,7 @@ def w_stress(ctx: core.Ctx, arg):
     def reader(ri):
         r = ctx.rng('stress-reader', arg['i'], ri)
         n = 0
-        while not stop.is_set() and n < arg['max_requests']:
+        while n < arg['max_requests']:  # bounded by count, never by wall-clock: a loaded machine must not thin out the observations
             kind, handles = r.choice(reqs)
             try:
                 res = _issue(readers[ri], kind, handles)
@@ -306,9 +306,10 @@ def w_stress(ctx: core.Ctx, arg):
     t0 = time.time()
     for t in threads:
         t.start()
-    while time.time() - t0 < arg['seconds'] and any(t.is_alive() for t in threads):
+    n_writers = arg['writers']
+    while time.time() - t0 < arg['seconds'] * 30 and any(t.is_alive() for t in threads[n_writers:]):  # watchdog only; the readers end after max_requests
         time.sleep(0.05)
-    stop.set()
+    stop.set()  # the writers commit as long as a reader is active
     for t in threads:
         t.join(120)
     sys.setswitchinterval(old_interval)
@@ -339,7 +340,7 @@ def run(ctx: core.Ctx):
         for split in range(4):
             jobs.append(['w_explore', {'i': fi * 4 + split, 'mdib_file': f, 'split': split, 'nsplit': 4, 'pairs': (fi == 0) or not q, 'async_mgr': fi % 2 == 1}])
     for k in range(4 if q else 16):
-        jobs.append(['w_stress', {'i': k, 'writers': 3, 'readers': 3, 'seconds': 6 if q else 120, 'max_ops': 400 if q else 8000,
+        jobs.append(['w_stress', {'i': k, 'writers': 3, 'readers': 3, 'seconds': 6 if q else 120, 'max_ops': 100000,
                                   'max_requests': 150 if q else 3000}])
     core.fanout(ctx, MODULE, 'dispatch', jobs, timeout=3000)
     ctx.exhaustive = True
